@@ -116,6 +116,7 @@ gen::FuncParams func_params(const Spec& s, uint32_t i) {
   fp.live_values = uint32_t(2 + r.below(r.chance(1, 3) ? 30 : 8));
   fp.blocks = uint32_t(r.below(4));
   fp.calls = r.chance(1, 2); fp.jump_table = r.chance(1, 2); fp.consts = r.chance(1, 2); fp.stack = r.chance(1, 2); fp.vec = r.chance(1, 2); fp.avx = r.chance(1, 2); fp.vec_live = r.chance(1, 3) ? uint32_t(7 + r.below(14)) : 0;
+  if (s.kind == kWCompiler && r.chance(1, 3)) fp.undef_reads = uint32_t(1 + r.below(24));   // (kWJit executes its function)
   return fp;
 }
 
@@ -285,27 +286,42 @@ Outcome run_workload(const Spec& s, Env& env, int phase, bool retry_failed_call 
         size_t nops = (8 + s.steps / 2) << round;
         struct Reusable { void* p; size_t size; };
         std::vector<Reusable> held;
+        uint64_t fired_seen = sim::run_faults_fired_total();
         for (size_t i = 0; i < nops; i++) {
-          Error err = Error::kOk;
-          switch (r.below(7)) {
-            case 0: { size_t n = Arena::aligned_size(size_t(8 + r.below(size_t(200) << (2 * round)))); uint8_t* p = arena.alloc_oneshot<uint8_t>(n); if (!p) err = make_error(Error::kOutOfMemory); else { memset(p, int(i), n); sum += n; } break; }
-            case 1: { uint64_t v = r.next(); err = env.vec64.append(arena, v); if (err == Error::kOk) sum ^= v; break; }
-            case 2: { size_t n = size_t(1 + r.below(size_t(40) << round)); err = env.vec32.reserve_additional(arena, n); for (size_t k = 0; k < n && err == Error::kOk; k++) err = env.vec32.append(arena, uint32_t(i + k)); break; }
-            case 3: { size_t n = size_t(16 + r.below(500)), got = 0; void* p = arena.alloc_reusable<uint8_t>(n, Out(got)); if (!p) err = make_error(Error::kOutOfMemory); else { memset(p, 0x5A, got); held.push_back(Reusable{p, got}); } break; }
-            case 4: { if (held.empty()) break; size_t k = size_t(r.below(held.size())); arena.free_reusable(held[k].p, held[k].size); held.erase(held.begin() + long(k)); break; }
-            case 5: { uint64_t d[8]; for (auto& x : d) x = r.chance(1, 3) ? 7 : r.next(); size_t sz = size_t(1) << r.below(7); size_t off = 0; err = env.pool->add(d, sz, Out(off)); if (err == Error::kOk) sum += off * 31 + sz; break; }
-            default: {
-              // heap string: mostly appends; sometimes the content is replaced through one of the assign paths
-              // (String::prepare(kAssign)) by something longer than the current capacity
-              uint64_t v = r.next() & 0xffff; uint32_t how = uint32_t(r.below(12));
-              size_t grow = (r.chance(1, 2) && env.str.size() < 30000 ? env.str.size() * 2 + 64 : env.str.size()) + 1 + size_t(r.below(64));   /* never a function of capacity(): a recycled string keeps its buffer */
-              if (how == 0) err = env.str.assign_chars(char('a' + v % 26), grow);
-              else if (how == 1) { std::string tmp(grow, char('A' + v % 26)); err = env.str.assign(Span<const char>(tmp.data(), tmp.size())); }
-              else if (how == 2) { std::vector<uint8_t> bytes(grow / 2 + 1, uint8_t(v)); err = env.str.assign_hex(bytes.data(), bytes.size()); }
-              else if (how == 3) err = env.str.assign_format("%0*llu", int(grow), (unsigned long long)v);
-              else err = env.str.append_format("%llu,", (unsigned long long)v);
-              break;
+          // the operation's arguments are drawn first, so that a failed operation can be repeated unchanged
+          uint32_t kind = uint32_t(r.below(7)); uint64_t a = r.next(), b = r.next(), c = r.next();
+          auto perform = [&]() -> Error {
+            Error err = Error::kOk;
+            switch (kind) {
+              case 0: { size_t n = Arena::aligned_size(size_t(8 + a % (size_t(200) << (2 * round)))); uint8_t* p = arena.alloc_oneshot<uint8_t>(n); if (!p) err = make_error(Error::kOutOfMemory); else { memset(p, int(i), n); sum += n; } break; }
+              case 1: { uint64_t v = a; err = env.vec64.append(arena, v); if (err == Error::kOk) sum ^= v; break; }
+              case 2: { size_t n = size_t(1 + a % (size_t(40) << round)); err = env.vec32.reserve_additional(arena, n); for (size_t k = 0; k < n && err == Error::kOk; k++) err = env.vec32.append(arena, uint32_t(i + k)); break; }
+              case 3: { size_t n = size_t(16 + a % 500), got = 0; void* p = arena.alloc_reusable<uint8_t>(n, Out(got)); if (!p) err = make_error(Error::kOutOfMemory); else { memset(p, 0x5A, got); held.push_back(Reusable{p, got}); } break; }
+              case 4: { if (held.empty()) break; size_t k = size_t(a % held.size()); for (size_t q = 0; q < held[k].size; q++) SIM_CHECK(static_cast<uint8_t*>(held[k].p)[q] == 0x5A, "c15:reusable-block-overwritten", "a reusable arena block of %zu bytes that is still held was overwritten at byte %zu", held[k].size, q); arena.free_reusable(held[k].p, held[k].size); held.erase(held.begin() + long(k)); break; }
+              case 5: { uint64_t d[8]; Rng dr(a); for (auto& x : d) x = dr.chance(1, 3) ? 7 : dr.next(); size_t sz = size_t(1) << (b % 7); size_t off = 0; err = env.pool->add(d, sz, Out(off)); if (err == Error::kOk) sum += off * 31 + sz; break; }
+              default: {
+                // heap string: mostly appends; sometimes the content is replaced through one of the assign paths
+                // (String::prepare(kAssign)) by something longer than the current capacity
+                uint64_t v = a & 0xffff; uint32_t how = uint32_t(b % 12);
+                size_t grow = ((c & 1) && env.str.size() < 30000 ? env.str.size() * 2 + 64 : env.str.size()) + 1 + size_t((c >> 1) % 64);   /* never a function of capacity(): a recycled string keeps its buffer */
+                if (how == 0) err = env.str.assign_chars(char('a' + v % 26), grow);
+                else if (how == 1) { std::string tmp(grow, char('A' + v % 26)); err = env.str.assign(Span<const char>(tmp.data(), tmp.size())); }
+                else if (how == 2) { std::vector<uint8_t> bytes(grow / 2 + 1, uint8_t(v)); err = env.str.assign_hex(bytes.data(), bytes.size()); }
+                else if (how == 3) err = env.str.assign_format("%0*llu", int(grow), (unsigned long long)v);
+                else err = env.str.append_format("%llu,", (unsigned long long)v);
+                break;
+              }
             }
+            return err;
+          };
+          Error err = perform();
+          if (err != Error::kOk && retry_failed_call && kind != 2 && kind < 6 /* a failed String assign may legitimately leave other (valid) content, from which the repeated call would derive another length */ && sim::run_faults_fired_total() > fired_seen) {
+            // "repeating the work once memory is available": the failed operation is made again on the same arena, which
+            // keeps being used (a multi-step operation - kind 2 - is not repeated, its first part has been done)
+            fired_seen = sim::run_faults_fired_total();
+            out.first_error = err;
+            sim::count("c15.probe.container_operation_repeated_after_failure");
+            err = perform();
           }
           if (err != Error::kOk) { if (err == Error::kOutOfMemory || faults_fired_here()) { out.first_error = err; return out; } }
         }
@@ -393,7 +409,7 @@ void faulted_run(const Plan& plan, const Spec& s, const Outcome& golden, const s
   std::unique_ptr<Env> env(new Env(s));
   // Aftermath 3 (assembler workload, single fault): the call that failed is repeated on the spot and the workload goes
   // on; the final output must be the failure-free output.
-  bool retry = aftermath == 3 && (s.kind == kWAsm || s.kind == kWBuilder) && faults.size() == 1 && !prob_den && fail_after < 0;
+  bool retry = aftermath == 3 && (s.kind == kWAsm || s.kind == kWBuilder || s.kind == kWContainers) && faults.size() == 1 && !prob_den && fail_after < 0;
   if (aftermath == 3 && !retry) aftermath = 0;
   Outcome o = run_workload(s, *env, 0, retry, &golden);
   if (retry) {
